@@ -44,6 +44,7 @@ func c07Exec(rc *harness.RunCtx, sc *c04Scenario, params map[string]string) c07R
 		setGlobalRand(rc2.T, g)
 		res = sc.run(rc2, adv)
 	})
+	res.sendOrder = append([]wireMsg(nil), adv.Log...)
 	res.log = adv.Log
 	sort.SliceStable(res.log, func(i, j int) bool {
 		a, b := res.log[i], res.log[j]
@@ -138,7 +139,7 @@ func RunC07(rc *harness.RunCtx) harness.Outcome {
 		}
 		// self-check: the first protocol message of every other party is unchanged
 		first := map[sim.ID]string{}
-		for _, w := range base.res.log {
+		for _, w := range base.res.sendOrder { // per sender, the recording order is its own program order
 			if strings.HasPrefix(w.CID, "A-") && inOnly(sc, w.CID) {
 				if _, ok := first[w.From]; !ok {
 					first[w.From] = w.CID
